@@ -5,7 +5,10 @@
 //
 //   C02 vf <solver> <rep> <dyadic> <pomdp> <h> | <nLists> { <nVec> { <action> <S values> } } | <nB> { <S weights> } | <nB> { findBestAtPoint value }
 //   C02 rtbss <rep> <dyadic> <pomdp> <h> <maxR> <S belief> | <action> <value>
+//   C02 vftol <solver> <rep> <dyadic> <pomdp> <h> <tolerance> | <returned variation> | <nLists> { <nVec> { <action> <S values> } }
 //   pomdp := S A γ T[a][s][s1].. R[s][a].. O Ob[a][s1][o]..      (harness/common/gen.hpp putPomdp)
+// rep: dense (POMDP::Model<MDP::Model>), sparse (SparseModel), generic (a model WITHOUT Eigen accessors: the `else` branches of
+// Projecter, computeImmediateRewards, beliefExpectedReward, updateBeliefUnnormalized)
 #include "common/verif.hpp"
 #include "common/gen.hpp"
 #include <AIToolbox/POMDP/Algorithms/IncrementalPruning.hpp>
@@ -14,15 +17,66 @@
 #include <AIToolbox/POMDP/Algorithms/RTBSS.hpp>
 #include <AIToolbox/POMDP/SparseModel.hpp>
 #include <AIToolbox/Utils/Polytope.hpp>
+#include <sys/types.h>
+#include <sys/wait.h>
+#include <unistd.h>
+#include <signal.h>
 
 using namespace verif;
 namespace P = AIToolbox::POMDP;
 using Dense  = P::Model<AIToolbox::MDP::Model>;
 using Sparse = P::SparseModel<AIToolbox::MDP::SparseModel>;
 
-static const long kFixed = 8;
+static const long kFixed = 10;
 
-long verif::verif_ncases(const std::string & tier) { return kFixed + (tier == "thorough" ? 6000 : 260); }
+// a POMDP model that satisfies POMDP::IsModel but not IsModelEigen (no get*Function accessors): selects the generic code paths
+struct GenericPomdp {
+    const Dense & d;
+    size_t getS() const { return d.getS(); }
+    size_t getA() const { return d.getA(); }
+    size_t getO() const { return d.getO(); }
+    double getDiscount() const { return d.getDiscount(); }
+    double getTransitionProbability(size_t s, size_t a, size_t s1) const { return d.getTransitionProbability(s, a, s1); }
+    double getExpectedReward(size_t s, size_t a, size_t s1) const { return d.getExpectedReward(s, a, s1); }
+    double getObservationProbability(size_t s1, size_t a, size_t o) const { return d.getObservationProbability(s1, a, o); }
+    std::tuple<size_t, double> sampleSR(size_t s, size_t a) const { return d.sampleSR(s, a); }
+    std::tuple<size_t, size_t, double> sampleSOR(size_t s, size_t a) const { return d.sampleSOR(s, a); }
+    bool isTerminal(size_t s) const { return d.isTerminal(s); }
+};
+static_assert(P::IsModel<GenericPomdp> && !P::IsModelEigen<GenericPomdp>);
+
+long verif::verif_ncases(const std::string & tier) { return kFixed + (tier == "thorough" ? 1500 : 200); }
+
+static int g_witness_limit = 10;   // seconds; a Witness run on these sizes takes well under a second
+
+// `#in <solver> <rep> S A O h`: the last comment line before a library call (check.py keeps it as the crash context)
+static void announce(const char * solver, const char * rep, const PomdpTables & pt, unsigned h) {
+    std::printf("#in %s %s %zu %zu %zu %u\n", solver, rep, pt.S, pt.A, pt.O, h); std::fflush(stdout);
+}
+
+// Witness' agenda loop has no iteration bound: run it in a child process so that a run that does not return becomes a protocol line
+// (`C02 hang …` -> `fail Witness does_not_terminate`, with the instance as the failing input) instead of a dead harness.
+// A child that crashes (sanitizer report, abort) takes the harness down with it, as a crash inside the library should.
+template <class F>
+static void guardedWitness(const char * rep, const PomdpTables & pt, unsigned h, double tol, bool dyadic, F f) {
+    std::fflush(stdout); std::fflush(stderr);
+    const pid_t pid = fork();
+    if (pid < 0) { f(); return; }
+    if (pid == 0) { f(); std::fflush(stdout); std::fflush(stderr); _exit(0); }
+    int st = 0;
+    for (int i = 0; i < g_witness_limit * 50; ++i) {
+        if (waitpid(pid, &st, WNOHANG) == pid) {
+            if (WIFEXITED(st) && WEXITSTATUS(st) == 0) return;
+            std::fprintf(stderr, "child running Witness died (status %d)\n", st); std::fflush(stderr);
+            std::abort();
+        }
+        usleep(20000);
+    }
+    kill(pid, SIGKILL); waitpid(pid, &st, 0);
+    Line l; l << "C02" << "hang" << "Witness" << rep << dyadic; putPomdp(l, pt); l << (size_t)h << tol << (size_t)g_witness_limit;
+    l.emit();
+    std::printf("#stat witness_killed 1\n");
+}
 
 static std::vector<AIToolbox::Vector> testBeliefs(Rng & rng, size_t S, int nrandom) {
     std::vector<AIToolbox::Vector> bs;
@@ -41,6 +95,7 @@ static std::vector<AIToolbox::Vector> testBeliefs(Rng & rng, size_t S, int nrand
 
 template <class Solver, class Mod>
 static void emitVF(const char * solver, const char * rep, const PomdpTables & pt, const Mod & model, unsigned h, bool dyadic, Rng & rng, int nrandom) {
+    announce(solver, rep, pt, h);
     Solver sol(h, 0.0);
     auto [var, vf] = sol(model);
     (void)var;
@@ -59,6 +114,35 @@ static void emitVF(const char * solver, const char * rep, const PomdpTables & pt
     for (auto & b : bs) { double v = 0; AIToolbox::findBestAtPoint(b, std::begin(last), std::end(last), &v, P::unwrap); l << v; }
     l.emit();
     std::printf("#stat solver:%s 1\n#stat rep:%s 1\n#stat vectors_last:%zu 1\n", solver, rep, std::min<size_t>(last.size(), 9));
+    if (std::string(solver) == "Witness") {
+        // lower bound on Witness' LP row reservation: replay reserveSize/counter on the RETURNED (pruned) per-action counts
+        size_t reserve = 1; bool grew = false;
+        for (size_t t = 1; t < vf.size(); ++t) {
+            reserve = std::max(reserve, 2 * vf[t - 1].size());
+            for (size_t a = 0; a < pt.A; ++a) {
+                size_t counter = 0;
+                for (const auto & e : vf[t]) if (e.action == a && ++counter == reserve) { reserve *= 2; grew = true; }
+            }
+        }
+        if (grew) std::printf("#stat witness_lp_rows_doubled 1\n");
+    }
+}
+
+// the same solvers with a tolerance: early stop of the outer loop, returned variation (weakBoundDistance), LinearSupport's epsilon test
+template <class Solver, class Mod>
+static void emitVFTol(const char * solver, const char * rep, const PomdpTables & pt, const Mod & model, unsigned h, double tol, bool dyadic) {
+    announce(solver, rep, pt, h);
+    Solver sol(h, tol);
+    auto [var, vf] = sol(model);
+    Line l; l << "C02" << "vftol" << solver << rep << dyadic; putPomdp(l, pt); l << (size_t)h << tol << "|" << var << "|";
+    l << (size_t)vf.size();
+    for (const auto & vl : vf) {
+        l << (size_t)vl.size();
+        for (const auto & e : vl) { l << (size_t)e.action; for (long s = 0; s < e.values.size(); ++s) l << (double)e.values[s]; }
+    }
+    l.emit();
+    std::printf("#stat tol:%s 1\n#stat tol_stop:%s 1\n", tol == 0.0 ? "zero" : tol <= 1e-6 ? "below_1e-6" : tol < 1.0 ? "small" : tol < 100 ? "medium" : "huge",
+                vf.size() == (size_t)h + 1 ? "ran_to_horizon" : "stopped_early");
 }
 
 // findVerticesNaive on a parsimonious list (the final IncrementalPruning list): C02 verts <dyadic> <S> <n> {S values} | <k> {S coordinates, value}
@@ -75,6 +159,7 @@ static void emitVerts(const PomdpTables & pt, const P::VList & vl, bool dyadic =
 
 template <class Mod>
 static void emitRTBSS(const char * rep, const PomdpTables & pt, const Mod & model, unsigned h, double maxR, const AIToolbox::Vector & b, bool dyadic) {
+    announce("RTBSS", rep, pt, h);
     P::RTBSS<Mod> solver(model, maxR);
     auto [a, v] = solver.sampleAction(b, h);
     Line l; l << "C02" << "rtbss" << rep << dyadic; putPomdp(l, pt); l << (size_t)h << maxR;
@@ -90,17 +175,32 @@ static void runAll(const PomdpTables & pt, unsigned h, bool dyadic, Rng & rng, i
     Dense dense = toDense(pt);
     if (which & 1) emitVF<P::IncrementalPruning>("IncrementalPruning", "dense", pt, dense, h, dyadic, rng, nrandom);
     if (which & 1) { P::IncrementalPruning ip(h, 0.0); auto [var, vf] = ip(dense); (void)var; emitVerts(pt, vf.back(), dyadic); }
-    if (which & 2) emitVF<P::Witness>("Witness", "dense", pt, dense, h, dyadic, rng, nrandom);
+    if (which & 2) guardedWitness("dense", pt, h, 0.0, dyadic, [&]{ emitVF<P::Witness>("Witness", "dense", pt, dense, h, dyadic, rng, nrandom); });
     if (which & 4) emitVF<P::LinearSupport>("LinearSupport", "dense", pt, dense, h, dyadic, rng, nrandom);
     if (which & 8) {
         Sparse sparse(dense);
         emitVF<P::IncrementalPruning>("IncrementalPruning", "sparse", pt, sparse, h, dyadic, rng, nrandom);
-        emitVF<P::Witness>("Witness", "sparse", pt, sparse, h, dyadic, rng, nrandom);
+        guardedWitness("sparse", pt, h, 0.0, dyadic, [&]{ emitVF<P::Witness>("Witness", "sparse", pt, sparse, h, dyadic, rng, nrandom); });
         emitVF<P::LinearSupport>("LinearSupport", "sparse", pt, sparse, h, dyadic, rng, nrandom);
+    }
+    if (which & 16) {
+        GenericPomdp gen{dense};
+        emitVF<P::IncrementalPruning>("IncrementalPruning", "generic", pt, gen, h, dyadic, rng, nrandom);
+        guardedWitness("generic", pt, h, 0.0, dyadic, [&]{ emitVF<P::Witness>("Witness", "generic", pt, gen, h, dyadic, rng, nrandom); });
+        emitVF<P::LinearSupport>("LinearSupport", "generic", pt, gen, h, dyadic, rng, nrandom);
     }
 }
 
-static void runRTBSS(const PomdpTables & pt, unsigned h, bool dyadic, Rng & rng, int n, bool sparseToo) {
+static void runTol(const PomdpTables & pt, unsigned h, double tol, bool dyadic, int which) {
+    Dense dense = toDense(pt);
+    if (which & 1) emitVFTol<P::IncrementalPruning>("IncrementalPruning", "dense", pt, dense, h, tol, dyadic);
+    if (which & 2) guardedWitness("dense", pt, h, tol, dyadic, [&]{ emitVFTol<P::Witness>("Witness", "dense", pt, dense, h, tol, dyadic); });
+    if (which & 4) emitVFTol<P::LinearSupport>("LinearSupport", "dense", pt, dense, h, tol, dyadic);
+    if (which & 8) { Sparse sparse(dense); emitVFTol<P::IncrementalPruning>("IncrementalPruning", "sparse", pt, sparse, h, tol, dyadic); }
+    if (which & 16) { GenericPomdp gen{dense}; guardedWitness("generic", pt, h, tol, dyadic, [&]{ emitVFTol<P::Witness>("Witness", "generic", pt, gen, h, tol, dyadic); }); }
+}
+
+static void runRTBSS(const PomdpTables & pt, unsigned h, bool dyadic, Rng & rng, int n, bool sparseToo, bool genericToo = false) {
     Dense dense = toDense(pt);
     const double mr = trueMaxR(pt);
     for (int i = 0; i < n; ++i) {
@@ -115,6 +215,7 @@ static void runRTBSS(const PomdpTables & pt, unsigned h, bool dyadic, Rng & rng,
         }
         emitRTBSS("dense", pt, dense, h, maxR, b, dyadic);
         if (sparseToo) { Sparse sparse(dense); emitRTBSS("sparse", pt, sparse, h, maxR, b, dyadic); }
+        if (genericToo) { GenericPomdp gen{dense}; emitRTBSS("generic", pt, gen, h, maxR, b, dyadic); }
         if (i == 0) {
             // the same instance with every reward shifted below zero and maxR = the (negative) largest reward, exactly as the header documents
             PomdpTables neg = pt;
@@ -132,6 +233,16 @@ static void runRTBSS(const PomdpTables & pt, unsigned h, bool dyadic, Rng & rng,
 static PomdpTables tables(size_t S, size_t A, size_t O, double g) {
     PomdpTables p; p.S = S; p.A = A; p.O = O; p.discount = g;
     p.T.assign(A, AIToolbox::Matrix2D::Zero(S, S)); p.R = AIToolbox::Matrix2D::Zero(S, A); p.Ob.assign(A, AIToolbox::Matrix2D::Zero(S, O));
+    return p;
+}
+
+// Witness does not return (fixes/C02-4): three states that never change, three actions each paying in "its" state, a noisy binary
+// read-out of the state.  At horizon 3 `findWitness` reports a point whose best vector is already in U (improvement exactly 0, positive
+// only in the LP's noise); the duplicate is appended, no variation is new, the agenda entry stays: the loop never ends.
+static PomdpTables witnessLoop() {
+    auto p = tables(3, 3, 2, 0.75);
+    for (size_t a = 0; a < 3; ++a) { p.T[a].setIdentity(); for (size_t s = 0; s < 3; ++s) { p.Ob[a](s, s % 2) = 0.75; p.Ob[a](s, 1 - s % 2) = 0.25; } }
+    p.R << 8, -8.75, -8.5,  -10, 8, -8.75,  -9.25, -9, 8;
     return p;
 }
 
@@ -187,6 +298,7 @@ static PomdpTables cxNeg() {
 
 void verif::verif_case(Rng & rng, long idx, const std::string & tier) {
     const bool thorough = tier == "thorough";
+    g_witness_limit = thorough ? 15 : 10;
     if (idx == 0) { auto p = tiger(); runAll(p, 2, true, rng, 15, 4); runRTBSS(p, 2, true, rng, 2, true); return; }
     if (idx == 1) { auto p = awkward(); runAll(p, 3, true, rng, 15, 4); runRTBSS(p, 3, true, rng, 2, true); return; }
     if (idx == 2) {   // RTBSS with the documented maxR on an all-negative model
@@ -206,6 +318,40 @@ void verif::verif_case(Rng & rng, long idx, const std::string & tier) {
         P::VList two; AIToolbox::Vector a(3), b(3); a << 8.15625, -2.0625, 5.25; b << 0.9375, -6.0, 7.9375;
         two.emplace_back(a, 0, P::VObs()); two.emplace_back(b, 1, P::VObs());
         emitVerts(p, two);
+        return;
+    }
+    if (idx == 4) {   // horizon 0: makeValueFunction's single zero vector from every solver and every representation; RTBSS returns (0, 0)
+        auto q = cxNeg(); runAll(q, 0, true, rng, 7, 2);
+        auto p = awkward(); runRTBSS(p, 0, true, rng, 1, true, true); runAll(p, 0, true, rng, 31, 2);
+        return;
+    }
+    if (idx == 5) {   // tolerance: 0.0, a value checkDifferentSmall reads as 0, values that stop the loop early, and one that stops it after one step
+        auto p = tiger();
+        for (double tol : {0.0, 5e-7, 0.25, 4.0, 1e6}) runTol(p, 4, tol, true, 15);
+        auto q = awkward();
+        for (double tol : {2e-6, 0.5, 2.0}) runTol(q, 5, tol, true, 7);
+        runTol(q, 0, 0.5, true, 7);     // horizon 0 WITH a tolerance: the loop body never runs
+        runTol(p, 4, 0.25, true, 16);
+        return;
+    }
+    if (idx == 6) {   // Tiger and the awkward instance with rewards scaled by 2^20 / 2^24 (WitnessLP's power-of-two row scaling, LP::solve retry)
+        auto p = tiger(); p.R *= std::ldexp(1.0, 20); runAll(p, 2, true, rng, 15, 4); runRTBSS(p, 2, true, rng, 1, true, true);
+        auto q = awkward(); q.R *= std::ldexp(1.0, 24); runAll(q, 3, true, rng, 7, 4);
+        runTol(p, 4, std::ldexp(1.0, 18), true, 7);
+        return;
+    }
+    if (idx == 7) {   // generic (non-Eigen) model on the hand-written instances
+        auto p = tiger(); auto q = awkward();
+        runRTBSS(p, 2, true, rng, 1, false, true); runRTBSS(q, 3, true, rng, 1, false, true);
+        runAll(p, 2, true, rng, 16, 4); runAll(q, 3, true, rng, 16, 4);
+        return;
+    }
+    if (idx == 8) { auto p = witnessLoop(); runAll(p, 3, true, rng, 7, 4); return; }
+    if (idx == 9) {   // fixes/C02-5: the LinearSupport edge-vertex instance with rewards times 2^24: findVerticesNaive finds no vertex at all
+        auto p = lsEdgeWitness(); p.R *= std::ldexp(1.0, 24); runAll(p, 2, true, rng, 7, 4);
+        P::VList two; AIToolbox::Vector a(2), b(2); a << std::ldexp(135.0, 20), std::ldexp(189.0, 17); b << std::ldexp(-1.0, 21), std::ldexp(69.0, 21);
+        two.emplace_back(a, 0, P::VObs()); two.emplace_back(b, 1, P::VObs());
+        auto q = tables(2, 2, 1, 0.5); emitVerts(q, two);
         return;
     }
     if (idx < kFixed) return;
@@ -244,6 +390,67 @@ void verif::verif_case(Rng & rng, long idx, const std::string & tier) {
     const bool sparse = rng.coin(1, 3);
     runAll(pt, h, dyadic, rng, 7 | (sparse ? 8 : 0), thorough ? 12 : 6);
     runRTBSS(pt, h, dyadic, rng, 2, sparse);
+
+    // ---- round 3: a second run per case in a regime the stream above never reaches (all draws AFTER the original ones, so the
+    // original instance stream is unchanged)
+    const int extra = (int)rng.below(8);
+    const int nr = thorough ? 8 : 4;
+    switch (extra) {
+    case 0: {   // horizon 0
+        std::printf("#stat extra:horizon0 1\n");
+        runRTBSS(pt, 0, dyadic, rng, 1, true, true); runAll(pt, 0, dyadic, rng, rng.coin() ? 31 : 15, 2);
+        break; }
+    case 1: {   // large magnitudes: rewards times 2^17 .. 2^24 (mixed signs stay mixed)
+        const int k = (int)rng.range(17, 24);
+        PomdpTables big = pt; big.R *= std::ldexp(1.0, k);
+        std::printf("#stat extra:scale_2^%d 1\n", k);
+        const int w = 7 | (rng.coin(1, 4) ? 8 : 0) | (rng.coin(1, 8) ? 16 : 0);
+        runRTBSS(big, h, dyadic, rng, 1, false); runAll(big, h, dyadic, rng, w, nr);
+        break; }
+    case 2: case 7: {   // tolerance (case 7: on the scaled instance, tolerance scaled too)
+        static const double tols[] = {0.0, 5e-7, 1e-6, 0.0625, 0.5, 1.0, 3.0, 16.0, 1e6};
+        double tol = tols[rng.below(9)];
+        PomdpTables q = pt;
+        if (extra == 7) { const int k = (int)rng.range(17, 22); q.R *= std::ldexp(1.0, k); if (tol > 1e-6) tol = std::ldexp(tol, k); std::printf("#stat extra:tolerance_scaled 1\n"); }
+        else std::printf("#stat extra:tolerance 1\n");
+        unsigned h2 = (tol > 1e-6) ? (unsigned)rng.range(2, A * O <= 4 ? 5 : 3) : h;
+        if (S >= 4 && h2 > 3) h2 = 3;
+        runTol(q, h2, tol, dyadic, 7 | (rng.coin(1, 3) ? 8 : 0) | (rng.coin(1, 6) ? 16 : 0));
+        break; }
+    case 3: {   // generic (non-Eigen) model
+        std::printf("#stat extra:generic 1\n");
+        runRTBSS(pt, h, dyadic, rng, 1, false, true); runAll(pt, h, dyadic, rng, 16, nr);
+        break; }
+    case 4: {   // many observations (merge schedule with O = 4, 5, 6; Witness variations over many slots), few vectors
+        const size_t O2 = (size_t)rng.range(4, 6), A2 = (size_t)rng.range(1, 2), S2 = (size_t)rng.range(2, 3);
+        PomdpTables w = randomPomdp(rng, S2, A2, O2, 3);
+        const unsigned h2 = (O2 == 6 || A2 == 2) ? (unsigned)rng.range(1, 2) : 2;
+        std::printf("#stat extra:wide_O%zu 1\n", O2);
+        runAll(w, h2, true, rng, 7 | (rng.coin(1, 3) ? 8 : 0), nr); runRTBSS(w, h2, true, rng, 1, false);
+        break; }
+    case 5: {   // lopsided shapes: one of S, A, O equal to 1 while the others are not
+        static const size_t shapes[][3] = {{1, 3, 3}, {4, 1, 3}, {3, 3, 1}, {1, 1, 1}, {2, 1, 1}, {1, 2, 4}, {1, 1, 3}, {4, 3, 1}, {3, 1, 4}};
+        const auto & sh = shapes[rng.below(9)];
+        PomdpTables w = randomPomdp(rng, sh[0], sh[1], sh[2], 3);
+        const unsigned h2 = (unsigned)rng.range(1, 3);
+        std::printf("#stat extra:shape_S%zuA%zuO%zu 1\n", sh[0], sh[1], sh[2]);
+        const int wh = 7 | (rng.coin() ? 8 : 0) | (rng.coin(1, 8) ? 16 : 0);
+        runRTBSS(w, h2, true, rng, 1, true); runAll(w, h2, true, rng, wh, nr);
+        break; }
+    default: {  // information gathering: each action pays in "its" state, observations are noisy: many useful vectors per action
+                // (Witness' LP row reservation doubles, LinearSupport's agenda is long, pruning has much to do)
+        const size_t S2 = (size_t)rng.range(2, 3), A2 = S2, O2 = (size_t)rng.range(2, 3);
+        PomdpTables w = randomPomdp(rng, S2, A2, O2, 3);
+        for (size_t a = 0; a < A2; ++a) for (size_t s = 0; s < S2; ++s) {
+            w.T[a].row(s).setZero(); w.T[a](s, s) = 1.0;                                     // the state never changes
+            for (size_t o = 0; o < O2; ++o) w.Ob[a](s, o) = (O2 == 2) ? ((o == s % 2) ? 0.75 : 0.25) : ((o == s % 3) ? 0.5 : 0.25);   // noisy state read-out, dyadic rows
+            w.R(s, a) = (s == a) ? 8.0 : -8.0 - 0.25 * (double)rng.range(0, 8);
+        }
+        const bool dy = O2 == 2;
+        std::printf("#stat extra:info_gathering 1\n");
+        runAll(w, 3, dy, rng, 7, nr);
+        break; }
+    }
 }
 
 VERIF_MAIN
